@@ -123,7 +123,26 @@ struct Builder {
         return b;
     }
     // after a call: counts and linear fill
+    // construction oracle: where the call must leave the spine, from its arguments (set by the caller before `after`)
+    bool have_end = false;
+    Vec2 want_end = {0, 0};
+    std::string spine_fail;
+    int spine_checked = 0;
+    void expect_end(Vec2 p) { have_end = true; want_end = p; }
     void after(int wrapper, const Before& b, const WO& wo, bool passes) {
+        if (have_end) {
+            have_end = false;
+            spine_checked++;
+            Vec2 got = cur();
+            double sc2 = std::max(1.0, std::max(fabs(want_end.x), fabs(want_end.y)));
+            if (spine_fail.empty() && std::isfinite(got.x) && std::isfinite(got.y) &&
+                (fabs(got.x - want_end.x) > 1e-9 * sc2 || fabs(got.y - want_end.y) > 1e-9 * sc2)) {
+                char sb[256];
+                snprintf(sb, sizeof sb, "call %d (wrapper %d) leaves the spine at (%.12g, %.12g), its arguments ask for (%.12g, %.12g)", ncalls + 1, wrapper, got.x, got.y,
+                         want_end.x, want_end.y);
+                spine_fail = sb;
+            }
+        }
         ncalls++;
         uint64_t sc = fp.spine.point_array.count;
         uint64_t k = sc - b.spine;
@@ -210,6 +229,7 @@ static void call_polyline(Builder& B) {
         Builder::WO wo = B.pick_wo(true);
         Vec2 d = step_vec(B.heading + pick_turn(g), len());
         fp.segment(rel ? d : c + d, wo.ws ? wo.w.data() : NULL, wo.os ? wo.o.data() : NULL, rel);
+        B.expect_end(c + d);
         B.after(W_S, b, wo, true);
     } else if (kind == 1) {  // segment, array
         Builder::WO wo = B.pick_wo(true);
@@ -226,6 +246,7 @@ static void call_polyline(Builder& B) {
         arr.items = pts.data();
         arr.count = pts.size();
         fp.segment(arr, wo.ws ? wo.w.data() : NULL, wo.os ? wo.o.data() : NULL, rel);
+        B.expect_end(rel ? c + pts.back() : pts.back());
         B.after(W_SA, b, wo, true);
     } else if (kind == 2 || kind == 3) {  // horizontal / vertical, one coordinate
         Builder::WO wo = B.pick_wo(true);
@@ -236,6 +257,7 @@ static void call_polyline(Builder& B) {
         double d = sgn * len();
         if (horiz) fp.horizontal(rel ? d : c.x + d, wo.ws ? wo.w.data() : NULL, wo.os ? wo.o.data() : NULL, rel);
         else fp.vertical(rel ? d : c.y + d, wo.ws ? wo.w.data() : NULL, wo.os ? wo.o.data() : NULL, rel);
+        B.expect_end(horiz ? Vec2{c.x + d, c.y} : Vec2{c.x, c.y + d});
         B.after(horiz ? W_H : W_V, b, wo, true);
     } else if (kind == 4 || kind == 5) {  // horizontal / vertical arrays (collinear steps)
         Builder::WO wo = B.pick_wo(true);
@@ -254,6 +276,10 @@ static void call_polyline(Builder& B) {
         arr.count = cs.size();
         if (horiz) fp.horizontal(arr, wo.ws ? wo.w.data() : NULL, wo.os ? wo.o.data() : NULL, rel);
         else fp.vertical(arr, wo.ws ? wo.w.data() : NULL, wo.os ? wo.o.data() : NULL, rel);
+        {
+            double last = rel ? (horiz ? c.x : c.y) + cs.back() : cs.back();
+            B.expect_end(horiz ? Vec2{last, c.y} : Vec2{c.x, last});
+        }
         B.after(horiz ? W_HA : W_VA, b, wo, true);
     } else {  // commands with l L h H v V
         Builder::WO wo = B.pick_wo(false);
@@ -288,6 +314,7 @@ static void call_polyline(Builder& B) {
             }
         }
         fp.commands(v.data(), v.size());
+        B.expect_end(p);
         B.after(W_CMD, b, wo, false);
     }
 }
@@ -313,13 +340,25 @@ static void call_curved(Builder& B) {
     std::vector<Vec2> pts;
     if (kind == 0) {
         double r = (5 + (double)g.below(5)) * W, ang = ((double)g.range(20, 100)) * M_PI / 180 * (g.coin() ? 1 : -1);
+        // turn() continues along the curve's recorded end direction: current point minus Curve::last_ctrl (the penultimate control
+        // point of the last section - C15's bookkeeping theorem is about exactly this field)
+        double hd = h;
+        {
+            Vec2 dlast = fp.spine.point_array[fp.spine.point_array.count - 1] - fp.spine.last_ctrl;
+            if (dlast.length_sq() > 0) hd = atan2(dlast.y, dlast.x);
+        }
         fp.turn(r, ang, wp, op);
+        {
+            double a0t = hd + (ang < 0 ? 0.5 * M_PI : -0.5 * M_PI);
+            B.expect_end(Vec2{c.x - r * cos(a0t) + r * cos(a0t + ang), c.y - r * sin(a0t) + r * sin(a0t + ang)});
+        }
         B.after(W_TURN, b, wo, true);
     } else if (kind == 1) {
         double r = (5 + (double)g.below(5)) * W, ang = ((double)g.range(20, 100)) * M_PI / 180 * (g.coin() ? 1 : -1);
         double a0 = h + (ang < 0 ? 0.5 * M_PI : -0.5 * M_PI);
         double ry = g.chance(30) ? r * (0.85 + 0.3 * (double)g.below(100) / 100) : r;
         fp.arc(r, ry, a0, a0 + ang, 0, wp, op);
+        if (ry == r) B.expect_end(Vec2{c.x - r * cos(a0) + r * cos(a0 + ang), c.y - r * sin(a0) + r * sin(a0 + ang)});
         B.after(W_ARC, b, wo, true);
     } else if (kind == 2) {
         pts = {P(d / 3, 0), P(2 * d / 3, e / 2), P(d, e)};
@@ -337,33 +376,39 @@ static void call_curved(Builder& B) {
         arr.items = pts.data();
         arr.count = pts.size();
         fp.cubic(arr, wp, op, rel);
+        B.expect_end(rel ? c + pts.back() : pts.back());
         B.after(W_CUBIC, b, wo, true);
     } else if (kind == 3) {
         pts = {P(2 * d / 3, e / 2), P(d, e)};
         arr.items = pts.data();
         arr.count = pts.size();
         fp.cubic_smooth(arr, wp, op, rel);
+        B.expect_end(rel ? c + pts.back() : pts.back());
         B.after(W_CUBICS, b, wo, true);
     } else if (kind == 4) {
         pts = {P(d / 2, 0), P(d, e)};
         arr.items = pts.data();
         arr.count = pts.size();
         fp.quadratic(arr, wp, op, rel);
+        B.expect_end(rel ? c + pts.back() : pts.back());
         B.after(W_QUAD, b, wo, true);
     } else if (kind == 5) {
         fp.quadratic_smooth(P(d, e / 2), wp, op, rel);
+        B.expect_end(rel ? c + P(d, e / 2) : P(d, e / 2));
         B.after(W_QUADS, b, wo, true);
     } else if (kind == 6) {
         pts = {P(d, e / 2), P(2 * d, 0)};
         arr.items = pts.data();
         arr.count = pts.size();
         fp.quadratic_smooth(arr, wp, op, rel);
+        B.expect_end(rel ? c + pts.back() : pts.back());
         B.after(W_QUADSA, b, wo, true);
     } else if (kind == 7) {
         pts = {P(d / 4, 0), P(d / 2, e / 2), P(3 * d / 4, e), P(d, e)};
         arr.items = pts.data();
         arr.count = pts.size();
         fp.bezier(arr, wp, op, rel);
+        B.expect_end(rel ? c + pts.back() : pts.back());
         B.after(W_BEZ, b, wo, true);
     } else if (kind == 8) {
         pts = {P(d, e / 2), P(2 * d, e)};
@@ -379,15 +424,18 @@ static void call_curved(Builder& B) {
         }
         fp.interpolation(arr, angles.data(), cons, tension.data(), 1, 1, false, wp, op, rel);
         free(cons);
+        B.expect_end(rel ? c + pts.back() : pts.back());
         B.after(W_INTERP, b, wo, true);
     } else if (kind == 9) {
         ParamData pd = {f.x, f.y, l.x, l.y, d, e};
         // FlexPath::parametric: relative adds the current point; absolute needs it in the function
         fp.parametric(param_fn, &pd, wp, op, true);
+        B.expect_end(c + param_fn(1, &pd));
         B.after(W_PARAM, b, wo, true);
     } else if (kind == 10) {  // straight piece between curves
         Vec2 dd = f * (5 * W);
         fp.segment(rel ? dd : c + dd, wp, op, rel);
+        B.expect_end(c + dd);
         B.after(W_S, b, wo, true);
     } else {  // commands with curve instructions
         std::vector<CurveInstruction> v;
@@ -1169,6 +1217,9 @@ static void run_path(uint64_t seed, uint64_t idx, const std::string& outdir, FIL
     if (B.counts_fail) em.P("FAIL flexpath-counts " + B.fail_text);
     else if (B.linear_fail) em.P("FAIL flexpath-fill-linear " + B.fail_text);
     else em.P("ok");
+    em.K("construct", gid);
+    em.I(std::to_string(B.spine_checked) + " checks");
+    em.P(B.spine_fail.empty() ? "ok" : "FAIL flexpath-construction " + B.spine_fail);
     em.T(family == 0 ? "family-polyline" : (family == 1 ? "family-curved" : "family-mixed"));
     em.T("elements-" + std::to_string(B.n));
     if (B.counts_fail) return;  // the arrays are inconsistent: to_polygons would read out of bounds
